@@ -2623,6 +2623,11 @@ type tupleExpr struct {
 	closing  token.Pos
 }
 
+// Pos and End make a tuple that ends up where an expression is expected (a
+// syntax error) usable in error recovery; the embedded ast.Expr is nil.
+func (p *tupleExpr) Pos() token.Pos { return p.opening }
+func (p *tupleExpr) End() token.Pos { return p.closing }
+
 func (p *parser) parseLambdaExpr(allowTuple, allowCmd, allowRangeExpr bool) (x ast.Expr, isTuple bool) {
 	var first = p.pos
 	if p.tok != token.DRARROW {
